@@ -17,6 +17,7 @@ import (
 	"os"
 	"os/exec"
 	"path/filepath"
+	"strconv"
 	"sync"
 	"time"
 
@@ -126,6 +127,9 @@ func main() {
 	budget := 150 * time.Second
 	if c.Tier == "thorough" {
 		budget = 20 * time.Minute
+	}
+	if v, err := strconv.Atoi(os.Getenv("C16_BUDGET_S")); err == nil && v > 0 {
+		budget = time.Duration(v) * time.Second // for experiments on a loaded machine
 	}
 	c.Budget(budget)
 	start := time.Now()
